@@ -1,5 +1,6 @@
 // Engine for C11 (a setter changes its field and nothing else) and C12 (wire layout), driven by fields.h.
 #pragma once
+#include "locale_env.h"
 #include <algorithm>
 #include <cmath>
 
@@ -11,8 +12,9 @@ namespace fld {
 
 inline const std::vector<ClassDef>& classes()
 {
-    static const std::vector<ClassDef> c = buildClasses();
-    return c;
+    // (never destroyed: the probe that runs after main() has returned still reads it)
+    static const std::vector<ClassDef>* c = new std::vector<ClassDef>(buildClasses());
+    return *c;
 }
 
 inline std::vector<uint64_t> valuesFor(const FieldDef& f, bool thorough, Rng& r)
@@ -104,6 +106,16 @@ struct Engine
                     else
                         v11("C11:setter-changes-other-field:" + fieldKey(*justSet), b, in);
                 }
+            }
+        }
+        if (cd.derived)
+        {
+            std::string d = cd.derived(s, raw);
+            if (!d.empty())
+            {
+                ok = false;
+                v11("C11:read-back-differs:" + cd.name + ".formatted-getter", std::string(when) + ": " + d, in);
+                v12("C12:getter-does-not-read-layout-position:" + cd.name + ".formatted-getter", std::string(when) + ": " + d, in);
             }
         }
         return ok;
@@ -235,7 +247,20 @@ inline void singleSetCase(Ctx& c, size_t ci, size_t fi, int bg)
 }
 
 // case = (class, seed): random sequences of setter calls on one object (flags set and cleared on top of non-zero neighbours)
+inline void sequenceCaseInner(Ctx& c, size_t ci, long idx);
 inline void sequenceCase(Ctx& c, size_t ci, long idx)
+{
+    if (idx % 4 == 1)
+    {
+        // a quarter of the sequences run in a process whose global C++ locale groups digits (group sizes 1, 2, 3)
+        ScopedGlobalLocale g(static_cast<unsigned>(idx / 4));
+        c.count("setter_sequences_under_a_global_locale_with_digit_grouping");
+        sequenceCaseInner(c, ci, idx);
+        return;
+    }
+    sequenceCaseInner(c, ci, idx);
+}
+inline void sequenceCaseInner(Ctx& c, size_t ci, long idx)
 {
     const ClassDef& cd = classes()[ci];
     Engine e{c, cd};
